@@ -24,7 +24,7 @@ open Cog.OMap (rget rset rdel)
 /-! ### strings (ASCII models of strings.EqualFold / strings.TrimSpace / tools.UpperCamelCase) -/
 
 /-- `strings.EqualFold` on ASCII input -/
-def eqFold (a b : String) : Bool := a.toLower == b.toLower
+def eqFold (a b : String) : Bool := a.toList.map Char.toLower == b.toList.map Char.toLower
 
 theorem eqFold_refl (a : String) : eqFold a a = true := by simp [eqFold]
 
